@@ -156,6 +156,151 @@ func PathTo(fn *ssa.Function, prev map[int]int, from, target int, pos func(token
 	return strings.Join(sb, "->")
 }
 
+// constOfValue folds a value to a constant if it is one, or a phi all of whose
+// incoming values (ignoring references to itself) fold to the same constant.
+func constOfValue(v ssa.Value, seen map[ssa.Value]bool) (*ssa.Const, bool) {
+	switch x := v.(type) {
+	case *ssa.Const:
+		return x, true
+	case *ssa.Phi:
+		if seen[x] {
+			return nil, false
+		}
+		seen[x] = true
+		var out *ssa.Const
+		for _, e := range x.Edges {
+			if e == ssa.Value(x) {
+				continue
+			}
+			if p, isPhi := e.(*ssa.Phi); isPhi && seen[p] {
+				continue
+			}
+			k, ok := constOfValue(e, seen)
+			if !ok {
+				return nil, false
+			}
+			if out != nil && !sameConst(out, k) {
+				return nil, false
+			}
+			out = k
+		}
+		return out, out != nil
+	}
+	return nil, false
+}
+
+func sameConst(a, b *ssa.Const) bool {
+	if a.Value == nil || b.Value == nil {
+		return a.Value == nil && b.Value == nil
+	}
+	return constant.Compare(a.Value, token.EQL, b.Value)
+}
+
+// condOutcomeFor: the outcome of branch condition cond when phi ph carries
+// the constant k (known=false if the condition does not test ph against a constant).
+func condOutcomeFor(cond ssa.Value, ph *ssa.Phi, k *ssa.Const) (outcome, known bool) {
+	core, neg := Peel(cond)
+	if core == ssa.Value(ph) {
+		if k.Value != nil && k.Value.Kind() == constant.Bool {
+			return constant.BoolVal(k.Value) != neg, true
+		}
+		return false, false
+	}
+	b, ok := core.(*ssa.BinOp)
+	if !ok || (b.Op != token.EQL && b.Op != token.NEQ) {
+		return false, false
+	}
+	var other ssa.Value
+	switch {
+	case b.X == ssa.Value(ph):
+		other = b.Y
+	case b.Y == ssa.Value(ph):
+		other = b.X
+	default:
+		return false, false
+	}
+	oc, isK := other.(*ssa.Const)
+	if !isK {
+		return false, false
+	}
+	eq := sameConst(oc, k)
+	res := eq == (b.Op == token.EQL)
+	return res != neg, true
+}
+
+// ReachF is Reach with one piece of path sensitivity: a flag variable. When a
+// block is entered through the predecessor on which a phi of that block carries
+// a constant (false, nil, a number), a later branch that tests the phi against
+// a constant can only be left through the matching successor. The knowledge is
+// kept along chains of single-predecessor blocks. Every path it removes is
+// infeasible, so it can replace Reach wherever fewer paths is the safe side.
+func ReachF(fn *ssa.Function, from *ssa.BasicBlock, cut map[Edge]bool) (seen map[int]bool, prev map[int]int) {
+	type state struct{ b, ob, op int }
+	seen = map[int]bool{from.Index: true}
+	prev = map[int]int{}
+	done := map[state]bool{}
+	start := state{from.Index, from.Index, -1}
+	done[start] = true
+	q := []state{start}
+	for len(q) > 0 {
+		st := q[0]
+		q = q[1:]
+		b := fn.Blocks[st.b]
+		var ifi *ssa.If
+		if len(b.Instrs) > 0 {
+			ifi, _ = b.Instrs[len(b.Instrs)-1].(*ssa.If)
+		}
+		for si, s := range b.Succs {
+			if cut[Edge{b.Index, s.Index}] {
+				continue
+			}
+			if ifi != nil && len(b.Succs) == 2 && st.op >= 0 {
+				infeasible := false
+				ob := fn.Blocks[st.ob]
+				for _, in := range ob.Instrs {
+					ph, isPhi := in.(*ssa.Phi)
+					if !isPhi {
+						break
+					}
+					if st.op >= len(ph.Edges) {
+						continue
+					}
+					k, isK := constOfValue(ph.Edges[st.op], map[ssa.Value]bool{})
+					if !isK {
+						continue
+					}
+					if outcome, known := condOutcomeFor(ifi.Cond, ph, k); known && outcome != (si == 0) {
+						infeasible = true
+					}
+				}
+				if infeasible {
+					continue
+				}
+			}
+			ns := state{s.Index, st.ob, st.op}
+			if len(s.Preds) != 1 {
+				pi := -1
+				for k, p := range s.Preds {
+					if p == b {
+						pi = k
+					}
+				}
+				ns = state{s.Index, s.Index, pi}
+			}
+			if done[ns] {
+				continue
+			}
+			done[ns] = true
+			if !seen[s.Index] {
+				seen[s.Index] = true
+				prev[s.Index] = b.Index
+			}
+			q = append(q, ns)
+		}
+	}
+	return seen, prev
+}
+
 // BlockPos returns the first valid position in a block.
 func BlockPos(b *ssa.BasicBlock) token.Pos {
 	for _, i := range b.Instrs {
